@@ -25,6 +25,7 @@ type ReplayFile struct {
 	RunSeed  uint64              `json:"run_seed"`
 	Tier     string              `json:"tier"`
 	Variant  string              `json:"variant,omitempty"`
+	Profile  string              `json:"profile,omitempty"`
 	MaxScans int                 `json:"horizon_scans"`
 	Config   string              `json:"config_text"`
 	Streams  map[string][]uint32 `json:"streams"`
@@ -226,9 +227,12 @@ func minimise(run runFn, streams map[string][]uint32, want Violation, maxExec in
 	return cur, horizon, best, execs
 }
 
+var allProps = []string{"C01", "C02", "C03", "C04", "C05", "C06", "C07", "C08", "C09", "C10", "C11", "C12", "C13", "C15", "C17", "C18", "C19", "C20"}
+
 type job struct {
 	driver  string
 	seed    uint64
+	profile string
 	variant string
 	force   map[string]string
 	run     func(replay map[string][]uint32, maxScans int, st *Stats) *RunResult
@@ -237,9 +241,17 @@ type job struct {
 // jobsFor lists the runs one seed contributes for a property.
 func jobsFor(t *testing.T, prop, tier string, seed uint64) []job {
 	var js []job
-	ctl := job{driver: "controller", seed: seed}
+	// thorough tier: a third of the runs borrow the generator profile of another property
+	profile := ""
+	if tier == "thorough" && seed%3 == 2 {
+		profile = allProps[(seed/3)%uint64(len(allProps))]
+	}
+	ctl := job{driver: "controller", seed: seed, profile: profile}
 	ctl.run = func(replay map[string][]uint32, maxScans int, st *Stats) *RunResult {
-		return RunOne(t, RunSpec{Seed: seed, Prop: prop, Tier: tier, Replay: replay, MaxScans: maxScans}, st)
+		if profile != "" {
+			st.Probe("run with a borrowed profile")
+		}
+		return RunOne(t, RunSpec{Seed: seed, Prop: prop, Tier: tier, Replay: replay, MaxScans: maxScans, Profile: profile}, st)
 	}
 	js = append(js, ctl)
 	switch prop {
@@ -342,7 +354,7 @@ func WorkerMain(t *testing.T, prop, tier string, lo, hi uint64, budget time.Dura
 		// real-time watchdog: a run that burns wall time without finishing (a spin, or a loop of
 		// virtual sleeps) is abandoned; the parent re-runs that seed once in a fresh process and
 		// reports c20-wedge only if it hangs again.
-		marker, _ := json.Marshal(ReplayFile{V: HarnessVersion, Property: prop, Rule: "c20-wedge", Site: "real-time-watchdog", Driver: j.driver, RunSeed: j.seed, Tier: tier, Variant: j.variant, Force: j.force, Generate: true})
+		marker, _ := json.Marshal(ReplayFile{V: HarnessVersion, Property: prop, Rule: "c20-wedge", Site: "real-time-watchdog", Driver: j.driver, RunSeed: j.seed, Tier: tier, Variant: j.variant, Profile: j.profile, Force: j.force, Generate: true})
 		wd := time.AfterFunc(90*time.Second, func() {
 			os.WriteFile(outPath+".hang", marker, 0o644)
 			os.Exit(4)
@@ -368,7 +380,7 @@ func WorkerMain(t *testing.T, prop, tier string, lo, hi uint64, budget time.Dura
 			before := countValues(res.Streams)
 			run := func(replay map[string][]uint32, maxScans int) *RunResult { return j.run(replay, maxScans, newStats()) }
 			streams, horizon, best, execs := minimise(run, res.Streams, v, 300)
-			rf := ReplayFile{V: HarnessVersion, Property: v.Property, Rule: v.Rule, Sub: v.Sub, Site: v.Site, Driver: j.driver, RunSeed: j.seed, Tier: tier, Variant: j.variant, Force: j.force, MaxScans: horizon, Streams: streams}
+			rf := ReplayFile{V: HarnessVersion, Property: v.Property, Rule: v.Rule, Sub: v.Sub, Site: v.Site, Driver: j.driver, RunSeed: j.seed, Tier: tier, Variant: j.variant, Profile: j.profile, Force: j.force, MaxScans: horizon, Streams: streams}
 			final := run(streams, horizon)
 			if fv, ok := findSame(final.Violations, v); ok {
 				best = fv
@@ -511,7 +523,7 @@ func ReplayMain(t *testing.T, path string, verbose bool) (reproduced bool, msg s
 	case "pair":
 		res = RunPairReplay(t, &rf)
 	default:
-		spec := RunSpec{Seed: rf.RunSeed, Prop: rf.Property, Tier: rf.Tier, Replay: streams, MaxScans: rf.MaxScans, KeepLog: verbose}
+		spec := RunSpec{Seed: rf.RunSeed, Prop: rf.Property, Tier: rf.Tier, Replay: streams, MaxScans: rf.MaxScans, KeepLog: verbose, Profile: rf.Profile}
 		if len(rf.Force) > 0 {
 			force := rf.Force
 			sweep := rf.Variant == "sweep"
